@@ -49,6 +49,13 @@ let () = Reg.register "c02.events" (fun inp out ->
           | SyntaxError (off, e, _) -> L [A "syntax"; put_z off; put_z e; put_events c.xc_events]
           | Crash _ -> A "panic"
           | OutOfFuel -> A "timeout") in
+        (* hypotheses of the C02 theorem on the tree the loop model built *)
+        (if !verdict = "ok" && oc = Accept then
+          match c.xc_stack with
+          | [_; es; _] ->
+            let (_, _, rlen, _, _, _) = t in
+            if not (Events.wf_treeb evt (fun r -> PTables.zn rlen r) es.x_tree) then verdict := "bad:event-table-or-trailing-null-flags-not-well-formed"
+          | _ -> ());
         (if !verdict = "ok" then begin
           let spec = Events.spec_events arrows (get_tree tree) eoi_off in
           match get_impl_events o with
